@@ -2,6 +2,7 @@ import AfkakProofs.Producer.Pending
 import AfkakProofs.Producer.ExactlyOnce
 import AfkakProofs.Producer.Groups
 import AfkakProofs.Producer.ProdLast
+import AfkakProofs.Producer.OneFlight
 import AfkakProofs.Producer.AccTrace
 import Afkak.Monitor.C09
 /-! C09 order / one batch in flight and C01 payload integrity: the monitors hold on every model trace. -/
@@ -16,6 +17,43 @@ theorem trackEv_keeps (pre : Snap) (t : Track) (e : Ev) :
   simp only [trackEv]
   repeat' split
   all_goals exact ⟨rfl, rfl, rfl, rfl⟩
+
+theorem trackEv_curRes_mono (pre : Snap) (t : Track) (e : Ev) (h : t.curRes.isSome = true) :
+    (trackEv pre t e).curRes.isSome = true := by
+  simp only [trackEv]
+  repeat' split
+  all_goals first | exact h | rfl
+
+/-- no request unanswered before the event: none after it -/
+theorem trackEv_quiet (pre : Snap) (t : Track) (e : Ev) (h : t.cur = none ∨ t.curRes.isSome = true) :
+    (trackEv pre t e).cur.isNone = true ∨ (trackEv pre t e).curRes.isSome = true := by
+  rcases h with hq | hq
+  · left; rw [(trackEv_keeps pre t e).2.2.1, hq]; rfl
+  · right; exact trackEv_curRes_mono pre t e hq
+
+/-- the client's (valid) answer to the request in flight: the summary takes it -/
+theorem trackEv_answered {cfg : Cfg} {st : St} {t : Track} (pre : Snap) (h : Rel cfg st t) {r : Rid} {b : Batch}
+    (hp : st.phase = .sending r b) (res : ProdRes) (hv : validResult b res = true) :
+    t.curRes.isNone = true ∧ (trackEv pre t (.produceDone r res)).curRes.isSome = true := by
+  have a := h.sending r b hp
+  have hvf := validFor_of_sending h hp res
+  refine ⟨by rw [a.res]; rfl, ?_⟩
+  simp only [trackEv, effective, completionOf, a.cur, a.res, hvf, hv, beq_self_eq_true, Bool.and_self, if_true]
+  rfl
+
+/-- a produce request that is no retry is made only when no produce request is unanswered -/
+theorem free_at_produce {cfg : Cfg} {st : St} {t : Track} (pre : Snap) (e : Ev) (h : Rel cfg st t) (rid : Rid)
+    (ps : List Payload) (hm : Ob.produce rid ps ∈ (step cfg st e).2) (hr : isRetryStep t e = false) :
+    (trackEv pre t e).cur.isNone = true ∨ (trackEv pre t e).curRes.isSome = true := by
+  rcases produce_only_when_free cfg st e rid ps hm with hp | ⟨ls, hp, _⟩ | ⟨r, b, res, hp, he, hv⟩ | ⟨tid, b, tps, hp, he⟩
+  · exact trackEv_quiet pre t e (h.quiet (Or.inl hp))
+  · exact trackEv_quiet pre t e (h.quiet (Or.inr ⟨ls, hp⟩))
+  · right
+    subst he
+    exact (trackEv_answered pre h hp res hv).2
+  · subst he
+    have := (h.retrying tid b tps hp).tid
+    simp [isRetryStep, this] at hr
 
 /-- the fields a non-produce observation leaves alone -/
 structure SameP (a b : Track) : Prop where
@@ -212,7 +250,7 @@ theorem payloadsFor_nodup {S : List Req} (b : Batch) (h : GsOk S b.groups) (tps 
       exact hn.1 htp'
 
 theorem payloadOk_of {S : List Req} (t0 : Track) (b : Batch) (hs : t0.sends = S) (h : GsOk S b.groups)
-    (hn : b.current.Nodup) (hne : b.current ≠ []) (hsub : ∀ tp ∈ b.current, tp ∈ b.groups.map (·.tp)) (rid : Rid) :
+    (hsn : (S.map (·.sid)).Nodup) (hn : b.current.Nodup) (hne : b.current ≠ []) (hsub : ∀ tp ∈ b.current, tp ∈ b.groups.map (·.tp)) (rid : Rid) :
     payloadOk t0 (.produce rid (b.payloadsFor b.current)) = true := by
   simp only [payloadOk, Bool.and_eq_true, Bool.not_eq_true', decide_eq_true_eq, List.all_eq_true]
   refine ⟨⟨⟨?_, payloadsFor_nodup b h b.current hn⟩, ?_⟩, ?_⟩
@@ -227,7 +265,7 @@ theorem payloadOk_of {S : List Req} (t0 : Track) (b : Batch) (hs : t0.sends = S)
   · rw [payloadsFor_map_tp b b.current h.tps hsub]; exact hn
   · intro p hp
     obtain ⟨hg, _⟩ := (mem_payloadsFor b b.current p).mp hp
-    refine ⟨?_, ?_⟩
+    refine ⟨⟨?_, ?_⟩, ?_⟩
     · cases hps : p.sids with
       | nil => exact absurd hps (h.ne p hg)
       | cons _ _ => rfl
@@ -235,13 +273,28 @@ theorem payloadOk_of {S : List Req} (t0 : Track) (b : Batch) (hs : t0.sends = S)
       obtain ⟨r, hr, h1, h2⟩ := h.src p hg sid hsid
       rw [List.any_eq_true]
       exact ⟨r, by rw [hs]; exact hr, by simp [h1, h2]⟩
+    · obtain ⟨rs, m1, m2, m3⟩ := h.msgs p hg
+      rw [beq_iff_eq, m3, ← m2, List.flatMap_map]
+      have : ∀ l : List Req, (∀ r ∈ l, r ∈ S) → l.flatMap (·.wire) = l.flatMap (fun r => wireOf t0 r.sid) := by
+        intro l hl
+        induction l with
+        | nil => rfl
+        | cons r rest ih =>
+          simp only [List.flatMap_cons]
+          rw [ih (fun x hx => hl x (List.mem_cons_of_mem _ hx))]
+          congr 1
+          simp only [wireOf, hs]
+          rw [filter_sid_of_nodup S r hsn (hl r List.mem_cons_self)]
+          simp
+      exact this rs m1
 
 
 /-! ### the invariant -/
 
 theorem GsOk.mono {S S' : List Req} {gs : List Payload} (h : GsOk S gs) (hs : ∀ r ∈ S, r ∈ S') : GsOk S' gs :=
   ⟨h.tps, h.ne, h.inc, h.nodup, fun g hg s hsid => by
-    obtain ⟨r, hr, h1, h2⟩ := h.src g hg s hsid; exact ⟨r, hs r hr, h1, h2⟩⟩
+    obtain ⟨r, hr, h1, h2⟩ := h.src g hg s hsid; exact ⟨r, hs r hr, h1, h2⟩, fun g hg => by
+    obtain ⟨rs, m1, m2, m3⟩ := h.msgs g hg; exact ⟨rs, fun r hr => hs r (m1 r hr), m2, m3⟩⟩
 
 theorem G.mono_S {S S' : List Req} {P : List Sid} {st : St} (h : G S P st) (hs : ∀ r ∈ S, r ∈ S') : G S' P st :=
   ⟨h.q_inc, fun r hr => hs r (h.q_src r hr), h.cross, h.lk_inc, fun ls hp l hl => hs _ (h.lk_src ls hp l hl),
@@ -425,7 +478,7 @@ theorem tinv_step (cfg : Cfg) (st : St) (t : Track) (pre : Snap) (e : Ev) (h : T
       by_cases hr : isRetryStep t e = true
       · obtain ⟨tid, b0, tps, he, hp0, hstep⟩ := retry_phase h.fr.rel e hr rid ps
           (by rw [hobs]; exact List.mem_append_right _ List.mem_cons_self)
-        obtain ⟨rid0, cur0, hcur0, hsub0⟩ := (h.fr.rel.retrying tid b0 tps hp0).prev
+        obtain ⟨rid0, cur0, hcur0, _, hsub0, _⟩ := (h.fr.rel.retrying tid b0 tps hp0).prev
         have hb : b = { b0 with current := tps } := by
           rw [hstep] at hp'
           simp only [doRetry] at hp'
@@ -433,23 +486,13 @@ theorem tinv_step (cfg : Cfg) (st : St) (t : Track) (pre : Snap) (e : Ev) (h : T
         have hsp' := hsp
         rw [hr] at hsp'
         simp only [oneBatchOk, hr, if_true, hsp'.cur, k3, hcur0]
-        rw [Bool.or_eq_true]
-        by_cases hacc : t.acct = true
-        · right
-          rw [List.all_eq_true]; intro x hx
-          simp only [decide_eq_true_eq]
-          rw [hps, hb] at hx
-          simp only [payloadSids, List.mem_flatMap] at hx ⊢
-          obtain ⟨g, hg, hxg⟩ := hx
-          obtain ⟨hg1, hg2⟩ := (mem_payloadsFor _ _ g).mp hg
-          exact ⟨g, (mem_payloadsFor b0 cur0 g).mpr ⟨hg1, hsub0 hacc _ hg2⟩, hxg⟩
-        · left
-          have : (trackEv pre t e).acct = false := by
-            have := (trackEv_acct_mono pre t e).1
-            cases hx : (trackEv pre t e).acct with
-            | false => rfl
-            | true => exact absurd (this hx) hacc
-          rw [hsp'.acct, this]; rfl
+        rw [List.all_eq_true]; intro x hx
+        simp only [decide_eq_true_eq]
+        rw [hps, hb] at hx
+        simp only [payloadSids, List.mem_flatMap] at hx ⊢
+        obtain ⟨g, hg, hxg⟩ := hx
+        obtain ⟨hg1, hg2⟩ := (mem_payloadsFor _ _ g).mp hg
+        exact ⟨g, (mem_payloadsFor b0 cur0 g).mpr ⟨hg1, hsub0 _ hg2⟩, hxg⟩
       · have hr' : isRetryStep t e = false := by simpa using hr
         have hpo := p0 hr' rid ps (by rw [hobs]; exact List.mem_append_right _ List.mem_cons_self)
         have hfresh : ps = b.groups := by
@@ -459,8 +502,10 @@ theorem tinv_step (cfg : Cfg) (st : St) (t : Track) (pre : Snap) (e : Ev) (h : T
           decide_eq_true_eq, Bool.or_eq_true, Bool.not_eq_true']
         have hsp' := hsp
         rw [hr'] at hsp'
-        rw [hsp'.produced, k1]
-        refine ⟨fun x hx hc => Nat.lt_irrefl _ (hpo x hx x hc), ?_⟩
+        rw [hsp'.produced, k1, hsp'.cur, hsp'.curRes]
+        refine ⟨⟨?_, fun x hx hc => Nat.lt_irrefl _ (hpo x hx x hc)⟩, ?_⟩
+        · have := free_at_produce pre e h.fr.rel rid ps (by rw [hobs]; exact List.mem_append_right _ List.mem_cons_self) hr'
+          simpa using this
         by_cases hacc : (trackEv pre t e).acct = true
         · right
           intro x hx
@@ -493,7 +538,7 @@ theorem tinv_step (cfg : Cfg) (st : St) (t : Track) (pre : Snap) (e : Ev) (h : T
       · simp only [List.mem_singleton] at ho
         subst ho
         rw [hps]
-        exact payloadOk_of (trackEv pre t e) b rfl hgs a.nodup a.ne hsubg rid
+        exact payloadOk_of (trackEv pre t e) b rfl hgs hsi0.nodup a.nodup a.ne hsubg rid
 
 
 theorem tinv_init (cfg : Cfg) : TInv cfg (St.init cfg) {} := by
